@@ -38,15 +38,15 @@ extern "C" void __tsan_on_report(void* report) {
 enum TOp { T_CREATE, T_HASH, T_BATCH, T_DESTROY, T_INITDS, T_OWNCACHE, T_YIELD, T_NOPS };
 struct Step { int op, a, b; };
 struct WCase {
-	std::vector<std::vector<Step>> threads; std::vector<Bytes> inputs; int dsJit;
+	std::vector<std::vector<Step>> threads; std::vector<Bytes> inputs; int dsJit; int fresh = 0;   // fresh: shared caches are re-created and keyed right before the threads start (no VM was ever attached)
 	std::string dump() const {
-		vh::KVWriter w; w("nthreads", (uint64_t)threads.size())("ninputs", (uint64_t)inputs.size())("dsJit", (uint64_t)dsJit);
+		vh::KVWriter w; w("nthreads", (uint64_t)threads.size())("ninputs", (uint64_t)inputs.size())("dsJit", (uint64_t)dsJit)("fresh", (uint64_t)fresh);
 		for (size_t i = 0; i < inputs.size(); ++i) w("input" + std::to_string(i), vh::hex(inputs[i].data(), inputs[i].size()));
 		for (size_t t = 0; t < threads.size(); ++t) { std::string s; for (auto& k : threads[t]) s += std::to_string(k.op) + ":" + std::to_string(k.a) + ":" + std::to_string(k.b) + " "; w("thread" + std::to_string(t), s); }
 		return w.str();
 	}
 	static WCase parse(const vh::KV& kv) {
-		WCase c; c.dsJit = (int)vh::getu(kv, "dsJit");
+		WCase c; c.dsJit = (int)vh::getu(kv, "dsJit"); c.fresh = (int)vh::getu(kv, "fresh", 0);
 		for (size_t i = 0; i < vh::getu(kv, "ninputs"); ++i) c.inputs.push_back(vh::unhex(vh::gets(kv, "input" + std::to_string(i))));
 		for (size_t t = 0; t < vh::getu(kv, "nthreads"); ++t) { std::vector<Step> v; std::stringstream ss(vh::gets(kv, "thread" + std::to_string(t))); std::string tok; while (ss >> tok) { Step k{0, 0, 0}; sscanf(tok.c_str(), "%d:%d:%d", &k.op, &k.a, &k.b); v.push_back(k); } c.threads.push_back(v); }
 		return c;
@@ -54,6 +54,8 @@ struct WCase {
 };
 
 static randomx_cache* sharedCache[2];   // [0] default, [1] JIT - same key
+static randomx_cache* refCache;         // same key, never visible to the worker threads: sequential expectations come from here, so that
+                                        // the shared caches can be in the state 'initialised, no VM attached yet' when the threads start
 static randomx_dataset sparseDs;        // sparse: only the generated ranges are ever touched
 static const char KEY[] = "C14 shared key";
 static const int VMFLAGS[] = {0, RANDOMX_FLAG_HARD_AES, RANDOMX_FLAG_JIT, RANDOMX_FLAG_JIT | RANDOMX_FLAG_HARD_AES, RANDOMX_FLAG_JIT | RANDOMX_FLAG_SECURE, RANDOMX_FLAG_JIT | RANDOMX_FLAG_SECURE | RANDOMX_FLAG_HARD_AES,
@@ -61,7 +63,7 @@ static const int VMFLAGS[] = {0, RANDOMX_FLAG_HARD_AES, RANDOMX_FLAG_JIT, RANDOM
 static std::map<std::pair<Bytes, int>, Digest> seqMemo;
 static Digest sequential(const Bytes& in, int v2) {
 	auto k = std::make_pair(in, v2); auto it = seqMemo.find(k); if (it != seqMemo.end()) return it->second;
-	randomx_vm* vm = randomx_create_vm((randomx_flags)(RANDOMX_FLAG_JIT | (v2 ? RANDOMX_FLAG_V2 : 0)), sharedCache[1], nullptr);
+	randomx_vm* vm = randomx_create_vm((randomx_flags)(RANDOMX_FLAG_JIT | (v2 ? RANDOMX_FLAG_V2 : 0)), refCache, nullptr);
 	Digest d; randomx_calculate_hash(vm, in.data(), in.size(), d.data()); randomx_destroy_vm(vm);
 	seqMemo[k] = d; return d;
 }
@@ -69,6 +71,12 @@ static Digest sequential(const Bytes& in, int v2) {
 static std::string body(const WCase& c) {
 	// sequential expectations first (single-threaded)
 	for (auto& in : c.inputs) { sequential(in, 0); sequential(in, 1); }
+	if (c.fresh) for (int i = 0; i < 2; ++i) {
+		randomx_release_cache(sharedCache[i]);
+		sharedCache[i] = randomx_alloc_cache(i ? RANDOMX_FLAG_JIT : RANDOMX_FLAG_DEFAULT);
+		if (!sharedCache[i]) return "harness: cache allocation failed";
+		randomx_init_cache(sharedCache[i], KEY, sizeof KEY - 1);
+	}
 	const uint64_t N = randomx_dataset_item_count();
 	// disjoint dataset ranges: thread t, j-th init op gets range slot (t*8+j)
 	const uint64_t slotItems = 1024;
@@ -113,7 +121,7 @@ static std::string body(const WCase& c) {
 	// classification
 	std::map<int, int> opThreads; bool hardAesCreators = false; int creators = 0, hardCreators = 0;
 	for (auto& t : c.threads) { bool seen[T_NOPS] = {false}; for (auto& k : t) { seen[k.op] = true; if (k.op == T_CREATE && (VMFLAGS[k.a % 9] & RANDOMX_FLAG_HARD_AES)) seen[T_NOPS - 1] = true; } for (int o = 0; o < T_NOPS - 1; ++o) if (seen[o]) opThreads[o]++; if (seen[T_CREATE]) creators++; if (seen[T_NOPS - 1]) hardCreators++; }
-	vh::label("threads:" + std::to_string(c.threads.size()));
+	vh::label("threads:" + std::to_string(c.threads.size())); if (c.fresh) vh::label(creators >= 2 ? "fresh-shared-cache:first-attach-concurrent" : "fresh-shared-cache");
 	if (creators >= 2) vh::label("concurrent:vm-creation"); if (hardCreators >= 2) { vh::label("concurrent:hard-aes-vm-creation"); hardAesCreators = true; }
 	if (opThreads[T_HASH] >= 2) vh::label("concurrent:hash-over-shared-cache"); if (opThreads[T_INITDS] >= 2) vh::label(c.dsJit ? "concurrent:dataset-init(compiled)" : "concurrent:dataset-init(interpreted)");
 	if (opThreads[T_INITDS] >= 1 && opThreads[T_HASH] >= 1) vh::label("concurrent:dataset-init+hash"); if (opThreads[T_OWNCACHE] >= 1) vh::label("private-cache-lifecycle-alongside");
@@ -131,13 +139,13 @@ static rc::Gen<WCase> genWorkload(bool ownCache) {
 		int op = table[w % 12]; if (op == T_OWNCACHE && !ownCache) op = T_HASH;
 		return Step{op, a, b};
 	}, gen::inRange(0, 12), gen::inRange(0, 256), gen::inRange(0, 1024));
-	return gen::resize(100, gen::apply([](std::vector<std::vector<Step>> th, std::vector<Bytes> in, int dsJit, int first) {
-		WCase c; c.inputs = in; c.dsJit = dsJit;
+	return gen::resize(100, gen::apply([](std::vector<std::vector<Step>> th, std::vector<Bytes> in, int dsJit, int first, int fresh) {
+		WCase c; c.inputs = in; c.dsJit = dsJit; c.fresh = fresh;
 		if (th.size() < 2) th.resize(2); if (th.size() > 8) th.resize(8);
 		for (auto& t : th) { if (t.size() > 6) t.resize(6); t.insert(t.begin(), Step{T_CREATE, first + (int)(&t - &th[0]), 0}); int owns = 0; for (auto& k : t) if (k.op == T_OWNCACHE && ++owns > 1) k.op = T_YIELD; }
 		c.threads = th;
 		return c;
-	}, gen::container<std::vector<std::vector<Step>>>(gen::container<std::vector<Step>>(stepGen)), gen::container<std::vector<Bytes>>(3, vg::genBytesLen(gen::inRange(0, 80))), gen::inRange(0, 2), gen::inRange(0, 9)));
+	}, gen::container<std::vector<std::vector<Step>>>(gen::container<std::vector<Step>>(stepGen)), gen::container<std::vector<Bytes>>(3, vg::genBytesLen(gen::inRange(0, 80))), gen::inRange(0, 2), gen::inRange(0, 9), gen::inRange(0, 2)));
 }
 
 int main(int argc, char** argv) {
@@ -146,6 +154,7 @@ int main(int argc, char** argv) {
 	return vh::harnessMain(argc, argv, [] {
 		sharedCache[0] = randomx_alloc_cache(RANDOMX_FLAG_DEFAULT); sharedCache[1] = randomx_alloc_cache(RANDOMX_FLAG_JIT);
 		randomx_init_cache(sharedCache[0], KEY, sizeof KEY - 1); randomx_init_cache(sharedCache[1], KEY, sizeof KEY - 1);
+		refCache = randomx_alloc_cache(RANDOMX_FLAG_JIT); randomx_init_cache(refCache, KEY, sizeof KEY - 1);
 		size_t len = ((size_t)randomx::DatasetSize + 4095) / 4096 * 4096;
 		sparseDs.memory = (uint8_t*)mmap(nullptr, len, PROT_READ | PROT_WRITE, MAP_PRIVATE | MAP_ANONYMOUS | MAP_NORESERVE, -1, 0); sparseDs.dealloc = nullptr;
 	});
